@@ -51,8 +51,46 @@ def params(draw):
     return mn, mx
 
 
+MIB = 1 << 20
+
+
+@st.composite
+def big_cases(draw):
+    """Streams handed over in pieces of one to several MiB (replicat reads files in 16 MiB pieces), incl. the default
+    bounds of init; sizes sit around the MiB multiples. Everything else about the case is as for the small ones."""
+    if draw(st.integers(0, 3)) == 0:
+        mn, mx = draw(st.sampled_from([(128_000, 5_120_000), (128_000, 640_000), (4096, 262_144 + 4)]))
+        length = draw(st.sampled_from([2 * mx + MIB + 5, 10 * MIB + 3, 16 * MIB, 16 * MIB + 4, 17 * MIB + 1, 3 * mx + 7]))
+    else:
+        mx = draw(st.sampled_from([256, 1000, 1021, 4096, 4099, 65536]))
+        mn = draw(st.sampled_from([1, 64, mx // 16, mx]))
+        while not aligned_ok(mn, mx):
+            mn -= 1
+        length = draw(st.sampled_from([MIB - 1, MIB, MIB + 1, MIB + mx, MIB + 2 * mx + 4, 2 * MIB, 2 * MIB + 5, 3 * MIB + 7,
+                                       max(2 * mx, MIB) + 1, 2 * max(2 * mx, MIB) + 3]))
+    key = random.Random(draw(st.integers(0, 2 ** 32))).randbytes(16)
+    data = {'kind': draw(st.sampled_from(['prng', 'prng', 'period', 'zeros'])), 'seed': draw(st.integers(0, 2 ** 32)), 'len': length,
+            'period': draw(st.integers(5, 9))}
+
+    def cuts():
+        style = draw(st.integers(0, 3))
+        if style == 0:
+            return []                                   # the whole stream as one piece
+        if style == 1:
+            step = draw(st.sampled_from([65536 + 3, MIB, MIB + 4, 2 * MIB, 16 * MIB]))
+            return list(range(step, length, step))
+        if style == 2:
+            return [draw(st.sampled_from([1, 4, mx, MIB, length - MIB if length > MIB else 1, length - 1]))]
+        return sorted(draw(st.lists(st.integers(0, length), max_size=4)))
+    a = cuts()
+    b = cuts()
+    return {'min': mn, 'max': mx, 'key': key.hex(), 'data': data, 'cuts': a, 'cuts2': b, 'probes': [], 'big': 1}
+
+
 @st.composite
 def cases(draw):
+    if draw(st.integers(0, 49)) == 0:
+        return draw(big_cases())
     mn, mx = draw(params())
     kkind = draw(st.integers(0, 9))
     if kkind == 0:
@@ -144,6 +182,8 @@ def run_case(case):
     if mn == mx:
         classes.append('min==max')
     classes.append('data:' + case['data']['kind'])
+    if case.get('big'):
+        classes.append('piece>=1MiB' if max(len(x) for x in pieces(data, case['cuts']) + pieces(data, case['cuts2'])) >= MIB else 'big-stream')
     k0zero = key[:8] == bytes(8)
 
     try:
